@@ -964,6 +964,10 @@ fn mean_expect(tr: Transform, f: &Facts, accepted: &[Bits], flt: Flt) -> Vec<Exp
             expect.push(Expect::AnyErr);
         }
     }
+    if f.nonfinite && !expect.is_empty() {
+        // too few observations AND a non-finite one: whichever the library reports first
+        expect.push(Expect::AnyErr);
+    }
     if f.nonfinite {
         // Harmonic absorbs +inf as the finite reciprocal 0: any Err or a valid Ok (DESIGN 5.4 (4))
         let only_pos_inf_in_harmonic = tr == Transform::Recip
